@@ -648,3 +648,39 @@ V("C13", "percent-no-validation", I,
 V("C13", "percent-ratio-inverted", I,
   ("        return (value / float(total_phymem)) * 100", "        return (float(total_phymem) / value) * 100"),
   "fires:C13.R5")
+
+# ----------------------------------------------------------------- C14
+V("C14", "defect-F11-returns", L,
+  ("        os.O_WRONLY | os.O_RDWR: 'w+',\n", ""), "fires:C14.R1")
+V("C14", "append-mode-lost", L,
+  ("    if flags & os.O_APPEND:\n        mode = mode.replace('w', 'a', 1)", "    if flags & os.O_TRUNC:\n        mode = mode.replace('w', 'a', 1)"),
+  "fires:C14.R1")
+V("C14", "rdwr-reported-w-plus", L,
+  ("    mode = mode.replace('w+', 'r+')\n", ""), "fires:C14.R1")
+V("C14", "filter-regular-dropped", L,
+  ("                if path.startswith('/') and isfile_strict(path):", "                if path.startswith('/'):"),
+  "fires:C14.R2")
+V("C14", "filter-relative-kept", L,
+  ("                if path.startswith('/') and isfile_strict(path):", "                if isfile_strict(path):"),
+  "fires:C14.R2")
+V("C14", "einval-propagates", L,
+  ("            except OSError as err:\n                if err.errno == errno.EINVAL:\n                    # not a link\n                    continue\n                if err.errno == errno.ENAMETOOLONG:\n                    # file name too long\n                    debug(err)\n                    continue\n                raise\n            else:\n                # If path is not an absolute",
+   "            except OSError as err:\n                if err.errno == errno.ENAMETOOLONG:\n                    # file name too long\n                    debug(err)\n                    continue\n                raise\n            else:\n                # If path is not an absolute"),
+  "fires:C14.R3")
+V("C14", "flags-decimal", L,
+  ("                            flags = int(f.readline().split()[1], 8)", "                            flags = int(f.readline().split()[1])"),
+  "fires:C14.R4")
+V("C14", "pos-flags-lines-swapped", L,
+  ("                            pos = int(f.readline().split()[1])\n                            flags = int(f.readline().split()[1], 8)",
+   "                            flags = int(f.readline().split()[1], 8)\n                            pos = int(f.readline().split()[1])"),
+  "fires:C14.R4")
+V("C14", "num-fds-fdinfo", L,
+  ("        return len(os.listdir(f\"{self._procfs_path}/{self.pid}/fd\"))", "        return len(os.listdir(f\"{self._procfs_path}/{self.pid}/fd\")) - 1"),
+  "fires:C14.R5")
+V("C14", "io-rchar-syscr-swapped", L,
+  ("                    fields[b'syscr'],  # read syscalls", "                    fields[b'rchar'],  # read syscalls"),
+  "fires:C14.R5")
+V("C14", "io-blank-not-skipped", L,
+  ("                    if line:\n                        try:\n                            name, value = line.split(b': ')\n                        except ValueError:\n                            # https://github.com/giampaolo/psutil/issues/1004\n                            continue\n                        else:\n                            fields[name] = int(value)",
+   "                    if True:\n                        name, value = line.split(b': ')\n                        fields[name] = int(value)"),
+  "fires:C14.R5")
